@@ -618,15 +618,18 @@ Definition ok_times (l : list oitem) : bool := ok_times_go [] l.
 (* (d) read event immediately after ENTRY / diff event immediately before EXIT for functions with a
    read trigger whose kinds all succeed: after ENTRY f exactly |kinds| READ events with the ENTRY time,
    before EXIT f exactly |kinds| DIFF events with the EXIT time, ids in table order *)
-Definition is_rd_id (i : N) : bool := existsb (fun k => (i =? id_read k) || (i =? id_diff k)) all_kinds.
-Fixpoint starts_with (ids : list N) (t : N) (l : list oitem) : bool :=
+(* [dif] = false: READ ids (after ENTRY), true: DIFF ids (before EXIT); in a call of zero duration the reads are
+   followed by the differences at the same time stamp *)
+Definition is_rd_id (dif : bool) (i : N) : bool :=
+  existsb (fun k => if dif then i =? id_diff k else i =? id_read k) all_kinds.
+Fixpoint starts_with (dif : bool) (ids : list N) (t : N) (l : list oitem) : bool :=
   match ids with
   | [] => match l with
-          | OE t' i _ :: _ => negb ((t' =? t) && is_rd_id i)        (* no further read/diff event *)
+          | OE t' i _ :: _ => negb ((t' =? t) && is_rd_id dif i)    (* no further read (resp. diff) event *)
           | _ => true
           end
   | i :: ri => match l with
-               | OE t' i' _ :: r => (t' =? t) && (i' =? i) && starts_with ri t r
+               | OE t' i' _ :: r => (t' =? t) && (i' =? i) && starts_with dif ri t r
                | _ => false
                end
   end.
@@ -635,8 +638,8 @@ Fixpoint ok_adj_go (C : xcfg) (prev_rev : list oitem) (l : list oitem) : bool :=
   | [] => true
   | OR (t, ty, mg, dp, ad) :: r =>
       let ks := ekinds C ad in
-      (if ty =? UFTRACE_ENTRY then starts_with (map id_read ks) t r
-       else starts_with (rev (map id_diff ks)) t prev_rev)
+      (if ty =? UFTRACE_ENTRY then starts_with false (map id_read ks) t r
+       else starts_with true (rev (map id_diff ks)) t prev_rev)
       && ok_adj_go C (OR (t, ty, mg, dp, ad) :: prev_rev) r
   | e :: r => ok_adj_go C (e :: prev_rev) r
   end.
